@@ -22,7 +22,7 @@ func runC20(c *Ctx) {
 	R.Rule("C20.R4", "a synthesised attribute is never the sole survivor: every append of a sanitiser-made attribute (rel, target, crossorigin, sandbox) is dominated by evidence that the attribute list is non-empty after URL validation — a len(list) > 0 test, or a found-flag raised while traversing the list, on a version of the list that is not the input of the validURL filter; otherwise an element whose URL attributes were all rejected leaves pass 1 with only the synthesised attribute, which pass 2 strips (the policy does not allow it), so the element comes out bare or is dropped")
 	R.Rule("C20.R5", "synthesised attributes keep their place: on no path (per element name) are two sanitiser-made attributes with different keys both appended — if K1 is appended before K2, a policy that allows K2 but not K1 on that element keeps K2 in place on the second pass and re-appends K1 after it, so the attribute order flips")
 	R.Rule("C20.R6", "the allow-list filter is a fixed point: each incoming attribute is kept at most once per pass (a duplicated attribute is duplicated again by the next pass)")
-	R.Rule("C20.R3", "single escaping point: each token is written once, through Token.String (decided by C06.R1/R2, referenced)")
+	R.Rule("C20.R3", "single serialiser: every destination write of sanitize has payload Token.String() (or a space, or raw data under allowUnsafe) — the escaping that the tokenizer's unescaping inverts; written once per token is C06.R2")
 	R.Assume(TrustGo, "idempotence of net/url normalisation and of the x/net/html decode/escape round trip is NOT decided", "the del/ins cite exception of UGCPolicy is outside the claimed clause")
 	fn := c.P.Func(load.ModPath, "(*Policy).sanitizeAttrs")
 	if fn == nil || len(fn.Params) != 4 {
@@ -293,7 +293,20 @@ func runC20(c *Ctx) {
 		}
 	}
 	R.Role("C20.R1", "extensions of existing attribute values", nExt, 3)
-	R.OK("C20.R3", "ref", "single escaping point", "", "decided by C06.R1/R2 (each token written once through Token.String)")
+	// R3: the only serialiser is Token.String (or raw data under allowUnsafe, or a space): its escaping is the inverse of the
+	// tokenizer's unescaping — the round-trip assumption of this property; any other escaper (a Replacer, a hand-written
+	// loop, EscapeString on a part of the token) is outside that assumption
+	if s3, err := model.FindSan(c.P); err != nil {
+		R.Unknown("C20.R3", "sanitize", "(*Policy).sanitize", "", err.Error())
+	} else {
+		n3 := 0
+		for i, w := range s3.Writes {
+			n3++
+			okW := w.Payload == "TokenString" || w.Payload == "Space" || w.Payload == "RawData"
+			R.Check(okW, "C20.R3", writeKey(s3, i), writeDescr(w), c.P.Pos(w.Call.Pos()), "written through Token.String (or a space, or raw data)", "a token is serialised by something other than Token.String ("+w.Detail+"): what the next pass reads back is no longer guaranteed to be what this pass wrote (characters the tokenizer normalises — CR, NUL — or entity forms can differ)")
+		}
+		R.Role("C20.R3", "destination writes in sanitize", n3, 6)
+	}
 }
 
 func isConstStr(v ssa.Value) bool { _, ok := constString(v); return ok }
